@@ -1,0 +1,98 @@
+//go:build verif
+
+package server
+
+import (
+	"net/netip"
+	"sync/atomic"
+	"unsafe"
+)
+
+// Verification trace points of the UDP job walk (build tag "verif" only).
+// Every point is reached by the goroutine that owns the job at that moment
+// — the reader that took it, the worker or overflow goroutine serving it,
+// the burst holder sending it — so the view handed to the trace function
+// is read under ownership and needs no lock. A conformance harness
+// installs a function to record the walk (and may block in it to steer a
+// schedule); with none installed each point costs one atomic load.
+const (
+	verifUDPTake       = iota + 1 // slab popped from the idle cache, about to be armed
+	verifUDPTransition            // udpJob.transition(from, to), before the ownership assertion
+	verifUDPQueued                // state set to queued, before the hand to the ready queue
+	verifUDPOverflow              // queue full: about to be served on its own goroutine
+	verifUDPStage                 // reply staged in the job's TX buffer for a burst
+	verifUDPBurstAdd              // staged job joins its holder's TX burst
+	verifUDPSendNow               // burst-less Write: bytes leave now, addressed from the job
+	verifUDPSendDirect            // staged reply sent on its own (sendDirect)
+	verifUDPSendBatch             // staged reply armed for sendmmsg, addressed by rawSA
+	verifUDPRelease               // scrubbed, about to be parked in the idle cache
+)
+
+// VerifUDPEvent is what a trace function sees at one trace point. Rx, Tx,
+// RawSA and Bytes alias job storage: valid only until the function returns.
+type VerifUDPEvent struct {
+	Ev       uint8
+	Engine   uintptr // engine identity
+	Slab     uintptr // job identity
+	State    uint8   // job.state as found (0 free, 1 reading, 2 queued, 3 serving)
+	From, To uint8   // the transition asked for (Ev == transition / release)
+	Rx       []byte  // rx[:rxLen]
+	Raddr    netip.AddrPort
+	RawSA    []byte // rawSA[:rawSALen]
+	Tx       []byte // tx[:txLen]
+	Bytes    []byte // the bytes of a burst-less Write (Ev == send-now)
+	Written  bool
+	Replay   bool
+	Burst    int // holder's burst slot while serving on a burst, -1 otherwise
+	Leased   int64
+	InFlight int64
+	SlabCap  int64
+}
+
+// VerifUDPTraceFunc receives every trace point.
+type VerifUDPTraceFunc func(*VerifUDPEvent)
+
+var verifUDPTraceFn atomic.Pointer[VerifUDPTraceFunc]
+
+// SetVerifUDPTrace installs (or, with nil, removes) the trace function.
+func SetVerifUDPTrace(f VerifUDPTraceFunc) {
+	if f == nil {
+		verifUDPTraceFn.Store(nil)
+		return
+	}
+	verifUDPTraceFn.Store(&f)
+}
+
+func verifTraceUDP(ev uint8, j *udpJob, from, to uint8, b []byte) {
+	f := verifUDPTraceFn.Load()
+	if f == nil {
+		return
+	}
+	v := VerifUDPEvent{
+		Ev: ev, State: j.state, From: from, To: to,
+		Raddr: j.raddr, Bytes: b, Written: j.written, Replay: j.replay, Burst: -1,
+	}
+	v.Slab = verifPtr(j)
+	if n := j.rxLen; n > 0 && n <= len(j.rx) {
+		v.Rx = j.rx[:n]
+	}
+	if n := int(j.rawSALen); n > 0 && n <= len(j.rawSA) {
+		v.RawSA = j.rawSA[:n]
+	}
+	if n := j.txLen; n > 0 && n <= len(j.tx) {
+		v.Tx = j.tx[:n]
+	}
+	if j.burst != nil {
+		v.Burst = j.burst.slot
+	}
+	if e := j.engine; e != nil {
+		v.Engine = verifPtr(e)
+		v.Leased = e.leased.Load()
+		v.InFlight = e.inFlight.Load()
+		v.SlabCap = e.slabCap
+	}
+	(*f)(&v)
+}
+
+// verifPtr is the identity of a job or an engine in the verification trace.
+func verifPtr[T any](p *T) uintptr { return uintptr(unsafe.Pointer(p)) } //nolint:gosec // identity only, never dereferenced
